@@ -4,7 +4,7 @@ import BFL.Core.Transc
 Model of the quaternion utilities of
   src/BayesFilters/include/BayesFilters/utils.h
 
-  quaternion_to_rotation_vector   (logarithm: sign handling, cut-off 1e-4 on ‖vec‖)      `quatLog`
+  quaternion_to_rotation_vector   (logarithm: sign handling, cut-off 5e-5 on ‖vec‖)      `quatLog`
   rotation_vector_to_quaternion   (exponential: cut-off 1e-4 on ‖r‖)                       `quatExp`
   sum_quaternion_rotation_vector  (exp(r) ⊗ q, left/global-frame convention)               `quatSum`
   diff_quaternion                 (log(q_i ⊗ q*), includes the factor 2)                   `quatDiff`
@@ -42,8 +42,12 @@ def V3.norm (r : V3 α) : α := Transc.sqrt (r.x * r.x + r.y * r.y + r.z * r.z)
 
 def Q.vec (q : Q α) : V3 α := ⟨q.x, q.y, q.z⟩
 
-/-- the small-angle cut-off written in both conversions -/
+/-- the small-angle cut-off on `‖r‖` written in `rotation_vector_to_quaternion` -/
 def cutoff : α := 1e-4
+
+/-- the cut-off on `‖vec‖` (the sine of half the angle) written in `quaternion_to_rotation_vector`
+    (since the repair de34974: `5e-5`, matching the `1e-4` rad of the exponential) -/
+def cutoffLog : α := 5e-5
 
 /-- `rotation_vector_to_quaternion`, one column. -/
 def quatExp (r : V3 α) : Q α :=
@@ -57,7 +61,7 @@ def quatExp (r : V3 α) : Q α :=
 /-- `quaternion_to_rotation_vector`, one column. -/
 def quatLog (q : Q α) : V3 α :=
   let nn := q.vec.norm
-  if nn > cutoff then
+  if nn > cutoffLog then
     if q.w < 0 then
       let c := -(2 : α) * Transc.acos (-q.w)
       ⟨c * q.x / nn, c * q.y / nn, c * q.z / nn⟩
@@ -69,7 +73,7 @@ def quatLog (q : Q α) : V3 α :=
 
 /-- which branch of the logarithm a quaternion takes (coverage histogram) -/
 def quatLogBranch (q : Q α) : String :=
-  if q.vec.norm > cutoff then (if q.w < 0 then "log:w<0" else "log:w>=0") else "log:cut-off"
+  if q.vec.norm > cutoffLog then (if q.w < 0 then "log:w<0" else "log:w>=0") else "log:cut-off"
 
 def quatExpBranch (r : V3 α) : String :=
   if r.norm > cutoff then "exp:regular" else "exp:cut-off"
